@@ -272,7 +272,10 @@ def chain_scenarios(ctx):
             steps.append({"a": h["a"], "e": h["e"], "k": h["k"], "n": n})
             if h["a"] == "produce" and rng.random() < 0.4:
                 steps.append({"a": "settle", "e": "", "k": "", "n": 0})
-        scen.append({"id": "chain%d" % i, "transport": tr, "iat": iat, "steps": steps})
+        # every third chain behind a middlebox that re-segments the start of each direction into small pieces, every third
+        # into MSS sized ones: the handshakes and the first frames reach the far proxy cut at arbitrary places
+        seg = [[], [1, 7, 31, 16, 33, 100, 2, 64], [1448]][(i // 6) % 3]
+        scen.append({"id": "chain%d" % i, "transport": tr, "iat": iat, "steps": steps, "seg": seg})
     return scen
 
 
